@@ -550,8 +550,8 @@ impl KeyWorld {
                 // list: sortedness of the physically stored keys
                 let ks = c.stored();
                 for w in ks.windows(2) {
-                    if w[0].key >= w[1].key {
-                        return Err(invariant("struct", name, opkind, "list not strictly sorted", format!("stored keys {} then {}", w[0].key, w[1].key)));
+                    if w[0].key > w[1].key {
+                        return Err(invariant("struct", name, opkind, "list not sorted", format!("stored keys {} then {}", w[0].key, w[1].key)));
                     }
                 }
                 ctx.stats.oracle_evals += 1;
@@ -1162,6 +1162,9 @@ impl World for KeyWorld {
                     ctx.stats.bump("fault.clock_lands_on_expiration");
                 }
                 ctx.cb_counts.push(0);
+                if step.panic_at == Some(crate::op::CONTROL) {
+                    self.after_injection(ctx, "Tick", None)?;
+                }
                 return Ok(Flow::Continue);
             }
             Op::KIns { k, exp } => {
